@@ -6,6 +6,7 @@ from .values import Sym, mk_bool, real_term, Unsupported
 
 
 class TimeVal:
+    ALWAYS_TRUE = True        # a Python object of this kind is truthy (no __bool__ / __len__)
     def __init__(self, t, kind='datetime', origin=None):
         self.t = t          # z3 Real (seconds)
         self.kind = kind    # 'datetime' | 'timedelta'
